@@ -164,3 +164,20 @@ Theorem C37_stale_cas_loop_never_returns :
             = Some {| cs_arg := 1; cs_at := CsLoaded 0 |}.
 Proof. exact cs_stale_loop_spins. Qed.
 Print Assumptions C37_stale_cas_loop_never_returns.
+
+(* Restart's test and reset are one step under the mutex: in either order with a concurrent
+   AddNotarizedBlock (and with a further Restart afterwards) the round ends at Share or later
+   holding the notarized block. *)
+Theorem C37_restart_atomic_keeps_notarized_round :
+  forall phase,
+    ra_safe (ra_run phase [RaCheck; RaAct; RaNotarize]) = true /\
+    ra_safe (ra_run phase [RaNotarize; RaCheck; RaAct]) = true /\
+    ra_safe (ra_run phase [RaCheck; RaAct; RaNotarize; RaCheck; RaAct]) = true.
+Proof. exact ra_atomic_restart_safe. Qed.
+Print Assumptions C37_restart_atomic_keeps_notarized_round.
+
+(* A Restart that tests before taking the mutex is not safe: AddNotarizedBlock between test and
+   reset is wiped and the phase drops from Share to ShareVRF. *)
+Theorem C37_restart_check_then_act_refuted : ra_safe (ra_run 0 [RaCheck; RaNotarize; RaAct]) = false.
+Proof. exact ra_check_then_act_refuted. Qed.
+Print Assumptions C37_restart_check_then_act_refuted.
